@@ -35,7 +35,7 @@ TRUSTED = ['A1 float == real', 'dependency contract np.fft.fft (length 8): X_k =
 ASSUMPTIONS = ['radii positive and pairwise distinct', 'the scripted convergence oracle ranges over every outcome of _check_convergence']
 NOT_DECIDED = ['coefficient accuracy within the reported error for non-polynomial f; "never degenerate/failed for functions analytic '
                'within distance 1.5" (behaviour of a heuristic search on rounded data)']
-BOUNDED = ['taylor-concrete: 95 (function, z0, options) cases x 11 values of n executed in floating point against the known series (n+1 coefficients; with default options never degenerate / failed; error <= 100*estimate + 100*rounding floor) -- a stand-in for the undecided accuracy clauses, never counted as proved; the complex-z0 Nyquist-coefficient cases that fail on the unchanged tree are known finding F16',
+BOUNDED = ['taylor-concrete: 95 (function, z0, options) cases x 11 values of n executed in floating point against the known series (n+1 coefficients; with default options never degenerate / failed; error <= 100*estimate + 100*rounding floor), plus 10 cases at the edges of the range (entire functions with vanishing low-order derivatives at z0; n = 53, 60 with a pole 0.002 from z0 started from r = 1e-4, 1e-3) -- a stand-in for the undecided accuracy clauses, never counted as proved; the complex-z0 Nyquist-coefficient cases that fail on the unchanged tree are known finding F16',
            'P: m = 8 only (n <= 6); m = 16 needs the algebraic numbers cos(pi/8), sin(pi/8) and is not attempted']
 QUANTIFIED = 'polynomial coefficients, z0 (complex), radii: universally quantified; n enumerated exhaustively for M'
 
@@ -397,7 +397,8 @@ def run_tconc():
     """bounded stand-in for the accuracy / never-degenerate clauses (undecided by contract): 19 functions with known series x 5
     (z0, options) settings x 11 values of n, executed in floating point; one obligation per (function, z0, options)"""
     from ndvc.concrete import taylor_cases
-    res = taylor_cases(mods()['fb'])
+    from ndvc.concrete import taylor_hard_cases
+    res = dict(taylor_cases(mods()["fb"])); res.update(taylor_hard_cases(mods()["fb"]))
     for name, (ok, detail) in sorted(res.items()):
         solve.fact(name + ':n+1-coefficients,never-degenerate/failed-with-defaults,error<=100*estimate+100*floor', ok, kind='bounded', note=str(detail)[:300] if detail else '')
     return dict(taylor_cases=len(res))
